@@ -107,6 +107,13 @@ func (jo *JobsOrderByQueues) PushJob(job *podgroup_info.PodGroupInfo) {
 
 	// Push job first (before linking) so ordering comparisons have valid data
 	leafNode.children.Push(job)
+	if leafNode.children.Empty() {
+		// A jobs queue depth of 0 drops the job right away: do not leave an empty leaf in the tree
+		if needsLinking {
+			delete(jo.queueNodes, job.Queue)
+		}
+		return
+	}
 
 	// Only link the tree if this is a new node
 	if needsLinking {
